@@ -29,6 +29,7 @@ CELLS = ["c", "c1", "c12", "cc", "d", "d_x", "f", "fo", "foo", "rate", "rate_adj
 RANK = {n: i for i, n in enumerate(CELLS)}
 REFS = ["r", "r1", "r_x", "s", "s2", "k", "ka", "len", "w"]
 MREFS = ["g", "g1", "h", "abs"]
+CALLREFS = ("k", "ka")        # reference names through which formulas call cells (see Gen.ref_terms / value_for)
 SPARAMS = [["p"], ["p", "q"]]
 CPARAMS = [["n"], ["z"]]
 
@@ -144,6 +145,7 @@ class Gen:
         self.mrefs = {}
         self.model_allow_none = False
         self.item_args = {}           # space path -> list of arg lists used for item inputs
+        self.name_use = {}            # reference name -> use class (see value_for)
 
     # ------------------------------------------------------------------ helpers
     def emit(self, **op):
@@ -238,8 +240,10 @@ class Gen:
         if use == "type":
             return ["type(%s).__name__" % n]
         if use == "cells":
-            if r.get("rank", 99) < rank:
-                return ["%s(1)" % n if r.get("nparams", 1) == 1 else "len(%s.parameters)" % n]
+            # called only through the names in CALLREFS (always bound to cells of rank < 3) and only from formulas of
+            # rank >= 3: wherever inheritance makes the name resolve, the call goes down the rank order
+            if n.split(".")[-1] in CALLREFS and rank >= 3:
+                return ["%s(1)" % n, "len(%s.parameters)" % n]
             return ["len(%s.parameters)" % n]
         if use == "space":
             return ["sorted(%s.cells)" % n]
@@ -465,22 +469,36 @@ class Gen:
         return rnd.choice(objs)
 
     def value_for(self, name, owner, allow_obj=True, want=None):
-        """value for a reference called `name`: names that shadow builtins used by the formula templates (len, abs)
-        never refer to a cells - `len(s)` would become a call edge outside the rank order (unbounded recursion)"""
-        for _ in range(20):
+        """value for a reference called `name`, or None.
+
+        A reference name keeps one *use class* (number, text, container, cells, space, module ...) throughout a
+        model: through inheritance and overriding a formula written for one space is evaluated with the name bound
+        to another value, and the expression templates must stay pure there - `len(r)` of a text is fine, `len(r)`
+        of a cells is the number of values it happens to hold.  Names that shadow builtins used by the templates
+        (len, abs) never refer to a cells or a class - `len(s)` would become a call edge outside the rank order."""
+        fixed = self.name_use.get(name)
+        if name in CALLREFS:
+            fixed, want = "cells", "object"
+        for _ in range(40):
             v, info = self.value(owner, allow_obj, want)
-            if name in ("len", "abs") and (info.get("use") == "cells" or v.get("sub") == "class"):
+            if name in CALLREFS and not (info.get("use") == "cells" and info.get("rank", 99) < 3):
+                continue
+            if name in ("len", "abs") and (info.get("use") in ("cells", "space") or v.get("sub") == "class"):
                 want = None
                 continue
+            if fixed is not None and info.get("use") != fixed:
+                want = None
+                continue
+            self.name_use[name] = info.get("use")
             return v, info
-        return self.value(owner, False, "literal")
+        return None, None
 
     def value(self, owner, allow_obj=True, want=None):
         """returns (value spec, info for formula use).  value spec: {"py": expr, "kind":, "sub":}"""
         rnd = self.rnd
         k = want or rnd.choices(["literal", "pickle", "object", "module", "objcontainer", "special"],
                                 [40, 24, 22 if allow_obj else 0, 5, 7 if allow_obj else 0,
-                                 0])[0]      # (nodes: as input values only, see input_value)
+                                 0])[0]
         if k == "literal":
             sub, e = rnd.choice(LITERALS)
             use = {"int": "num", "float": "num", "bigint": "num", "float_special": "repr", "str": "str",
@@ -531,12 +549,9 @@ class Gen:
             return ({"py": e, "kind": "pickle", "sub": "container-of-objects",
                      "derived": any(p[1].get("derived") for p in picks)},
                     {"use": "objlist" if shape in ("list", "tuple") else "len"})
-        # special: a node of a cells (pickled by persistent id)
-        cs = [o for o in self.objects(kinds=("cells",)) if len(o[1]["c"]["params"]) == 1]
-        if not cs:
-            return self.value(owner, False, "literal")
-        expr, info = rnd.choice(cs)
-        return {"py": "O(%r).node(1)" % expr, "kind": "pickle", "sub": "node"}, {"use": "type"}
+        # (nodes of cells - cells.node(1) - are not in the vocabulary: their repr depends on whether the element
+        # holds a value, which makes any text a formula builds from them depend on the order of evaluation)
+        return self.value(owner, False, "literal")
 
     def item_arg_list(self, s):
         rnd = self.rnd
@@ -558,13 +573,9 @@ class Gen:
             return {"py": rnd.choice(["2.5", "float('nan')", "float('inf')", "-0.0"]), "kind": "literal", "sub": "float"}
         if r < 0.74 and allow_none:
             return {"py": "None", "kind": "literal", "sub": "none"}
-        if r < 0.84:
+        if r < 0.86:
             sub, e = rnd.choice(PICKLES)
             return {"py": e, "kind": "pickle", "sub": sub}
-        if r < 0.86:
-            cs = [o for o in self.objects(kinds=("cells",)) if len(o[1]["c"]["params"]) == 1]
-            if cs:      # a node of a cells (pickled by persistent id); only as an input value: its repr depends on
-                return {"py": "O(%r).node(1)" % rnd.choice(cs)[0], "kind": "pickle", "sub": "node"}   # whether it holds a value
         v, _ = self.value(owner, True, rnd.choice(["object", "objcontainer", "objcontainer"]))
         return v
 
@@ -720,6 +731,8 @@ class Gen:
             names = rnd.sample(MREFS, rnd.choice([0, 1, 1, 2, 3]))
             for n in names:
                 v, info = self.value_for(n, None, True)
+                if v is None:
+                    continue
                 self.emit(op="ref", space="", name=n, value=v, mode=None)
                 self.mrefs[n] = info
             return
@@ -736,6 +749,8 @@ class Gen:
             elif focus == "refs" and rnd.random() < 0.5:
                 want = "object"
             v, info = self.value_for(n, s, True, want)
+            if v is None:
+                continue
             if v["kind"] == "object":
                 mode = rnd.choice([None, "auto", "relative", "absolute", "absolute", "relative"])
                 if mode == "relative" and v.get("rel") in ("other", "other-cells", "model", "dynamic", "sibling",
@@ -786,8 +801,9 @@ class Gen:
         elif r < 0.8 and inh_refs:
             n, d, rinfo = rnd.choice(inh_refs)
             v, info = self.value_for(n, s, True)
-            self.emit(op="ref", space=s.path(), name=n, value=v, mode=None)
-            s.refs[n] = info
+            if v is not None:
+                self.emit(op="ref", space=s.path(), name=n, value=v, mode=None)
+                s.refs[n] = info
         elif inherited and self.hz["derived_input"] and r > 0.5:
             cands = [(n, d, c) for n, d, c in inherited if c["cached"]]
             if cands:
